@@ -462,8 +462,8 @@ class C03(Prop):
     consts = [("oldRangeBehavior", "NV_OLD_RANGE"), ("switchCaseSize", "SWITCH_CASE_SIZE")]
     const_headers = ["lib/efuns/options.h", "src/interpret.h"]
     const_prelude = "#ifdef OLD_RANGE_BEHAVIOR\n#define NV_OLD_RANGE 1\n#else\n#define NV_OLD_RANGE 0\n#endif\n"
-    quick_n = 260
-    thorough_n = 4000
+    quick_n = 1200
+    thorough_n = 6000
     search_n = 600
     design_ref = "5/C03"
     technique = ("Lean 4 proof at operator / rewrite / table-algorithm level + typed program generator with "
@@ -568,9 +568,12 @@ class C03(Prop):
             fns.append([("ret", ("un", op, a))])
         fns.append([("expr", ("asg", L(A), a)), ("ret", ("un", op, L(A)))])
         fns.append([("expr", ("asg", G(0), a)), ("ret", ("un", op, G(0)))])
+        same = [list(range(len(fns)))]
         if op == "neg":
             fns.append([("expr", ("asg", L(A), a)), ("expr", ("asg", L(B), I(0))), ("ret", ("bin", "sub", L(B), L(A)))])
-        return make_case(cid, fns, meta={"origin": "generated", "family": "unop"})
+            if t != "f":
+                same[0].append(len(fns) - 1)
+        return make_case(cid, fns, same=same, meta={"origin": "generated", "family": "unop"})
 
     def fam_incdec(self, rng, cid):
         v = I(pick_int(rng)) if rng.chance(2, 3) else Fl(pick_float(rng))
@@ -597,6 +600,8 @@ class C03(Prop):
         fns.append([("expr", ("asg", L(A), v)), ("expr", ("asg", L(B), L(A))),
                     ("expr", ("asg", L(A), ("bin", op, L(A), I(1)))), ("ret", Arr([L(B), L(A)]))])
         same.append([len(fns) - 2, len(fns) - 1])
+        if vtype(v) == "s":
+            same = []      # ++ is defined on numbers only: `++x` raises for a string, `x = x + 1` concatenates
         return make_case(cid, fns, same=same, meta={"origin": "generated", "family": "incdec"})
 
     def pick_container(self, rng):
@@ -976,7 +981,8 @@ class C03(Prop):
                    [("expr", ("asg", L(var), v)), ("ret", ("un", "neg", L(var)))],
                    [("expr", ("asg", L(A), v)), ("expr", ("asg", L(B), I(0))), ("ret", ("bin", "sub", L(B), L(A)))],
                    [("expr", ("asg", L(var), v)), ("ret", ("bin", "sub", L(var), I(0)))]]
-            return make_case(cid, fns, same=[[0, 1, 2]], meta={"origin": "generated", "family": "rewrite"})
+            # `0 - x` and `-x` differ in the sign of a zero result: not declared siblings
+            return make_case(cid, fns, same=[[0, 2]], meta={"origin": "generated", "family": "rewrite"})
         elif kind == "notcond":
             fns = [[("expr", ("asg", L(A), v)), ("ret", ("cond", ("un", "not", L(A)), I(10), I(20)))],
                    [("expr", ("asg", L(A), v)), ("ret", ("cond", L(A), I(20), I(10)))],
